@@ -35,21 +35,35 @@ def _is_expiry_test(tr, e0):
     from ..inline import view_of
     ff, ftr = view_of(tr.facts, "full")
     e1 = ff.bodies.get(e0.def_) or e0
+    found = False
     for (i, j, node) in ret_assigns(ftr, e1):
         for lf in leaves(node):
+            lf = peel(lf)
+            edges = dominating_edges(ftr, e1, i)
+            # the only decision besides the age test is "is a TTL configured": an entry is declared fresh without
+            # looking at its age only on the `None` edge of the TTL parameter, and the age test itself is not guarded by
+            # anything but the `Some` edge (`Some(ttl) if !ttl.is_zero()` would make a zero TTL mean "never expires")
+            opt_edges = [e for e in edges if e["kind"] == "enum" and e["label"] in ("Some", "None") and peel(e["node"])[0] == "param"]
+            others = [e for e in edges if e not in opt_edges and e["kind"] in ("bool", "enum") and "via" not in e]
+            if lf[0] == "const":
+                if lf[1] == "false" and not (any(e["label"] == "None" for e in opt_edges) and not others):
+                    return False
+                if lf[1] == "true":
+                    return False
+                continue
             cm = normalise_cmp(ftr, lf)
-            if cm is None:
-                continue
-            ef = elapsed_form(ftr, cm)
+            ef = elapsed_form(ftr, cm) if cm is not None else None
             if ef is None:
-                continue
+                return False
             start, dur = peel(ef[0]), ef[1]
             while start[0] in ("ref", "deref"):
                 start = peel(start[1])
             ttl_side = any(n[0] == "param" for n in ftr.walk(dur, limit=30))
-            if start[0] == "field" and peel(start[1])[0] in ("param", "deref", "ref") and ttl_side:
-                return True
-    return False
+            if start[0] == "field" and peel(start[1])[0] in ("param", "deref", "ref") and ttl_side and not others:
+                found = True
+            else:
+                return False
+    return found
 
 
 def run(facts, tr, rep):
@@ -178,7 +192,7 @@ def run(facts, tr, rep):
         succ = None
         succ_all = []
         for e in dominating_edges(tr, ch, c.bb):
-            if e["kind"] == "enum" and e["label"] in ("Ok", "Continue") and derives(tr, e["node"], R, variants=("Ready", "Ok")):
+            if e["kind"] == "enum" and e["label"] in ("Ok", "Continue") and derives(tr, e["node"], R, variants=("Ready", "Ok"), success=True):
                 succ_all.append(e)
         # the same decision may be tested more than once on the way (`match r { Ok(v) => Ok(v), .. }` followed by `?`):
         # the last test is the edge the insertion hangs on, the earlier ones are not further conditions
@@ -397,6 +411,31 @@ def run(facts, tr, rep):
                    "a new key is inserted into %s only below capacity (len >= capacity failed) or after an eviction" % short if ok else
                    "a new key can be inserted into %s at capacity without evicting: the cache can grow beyond max_size" % short)
         rep.floor("C10.new-key-insertions:" + short, nnew, 1)
+        # OVERWRITE: storing again under a key that is already present replaces the value and nothing else.  On that path the
+        # bookkeeping containers get no second entry for the key (a queue that holds the key twice later "evicts" a key that is
+        # no longer there: the new key is admitted for free and the cache outgrows max_size) and no reset counter (a key with
+        # hits becomes the least-frequently-used victim)
+        for n_, (c, f) in enumerate(field_calls(ins, INSERTERS)):
+            if f == primary:
+                continue
+            edges = dominating_edges(tr, ins, c.bb)
+            existing = any(e["kind"] == "bool" and e["label"] == "true" and e["node"][0] == "call" and tr.call_of(e["node"]).name == "contains_key" for e in edges)
+            if not existing:
+                continue
+            real = c.c if isinstance(c, _AtBlock) else c
+            rb = real.g.b
+            bad = None
+            if real.name.startswith("push"):
+                rms = [x for (x, ff) in removes if ff == f and gi.node_dominates(x.bb, c.bb) and x.bb != c.bb]
+                if not rms:
+                    bad = "the key is queued again in `%s` without its old position being removed" % f
+            elif real.name in ("insert", "put") and len(real.args) >= 3:
+                v = peel(tr.expand(tr.operand(rb, real.args[2], real.loc)))
+                if v[0] == "const":
+                    bad = "`%s` is reset to %s for a key that is already counted" % (f, v[1])
+            rep.ob("C10.OVERWRITE", "%s|%s|existing-key.%s#%d" % (CRATE, short, f, n_), bad is None, c.where(),
+                   "re-storing a present key leaves the bookkeeping of %s consistent" % short if bad is None else
+                   "on the path that re-stores a key that is already present, %s" % bad)
         # COHERENT: removing methods touch every container
         if len(containers) >= 2:
             for nm, mb in items.items():
